@@ -753,6 +753,8 @@ class Evaluator:
 # Part 2: the engine — calls, builtins, sequence library, statements, loops
 # ======================================================================
 DEFAULTS = None
+BACKPTR = ('back pointers are not modelled: writes of RegionBlock.parent_region and of SCFG.region (object.__setattr__ / constructor '
+           'keyword) are dropped; no contract may mention them (they are checked by the bounded hierarchy clause)')
 
 
 def block_defaults():
@@ -885,7 +887,16 @@ class Engine:
                     x = ev.ev(a, p, True)
                     s = ev.ev(b.args[0], p, True)
                     s = self.to_set(s)
-                    f = And(S.seq_sorted_strict(x), S.set_eq(S.seq_to_set(x), s))
+                    # same elements, stated in both directions with triggers (x[k] is in S; every y of S is some x[k])
+                    k_ = z3.FreshInt('sk')
+                    y_ = z3.FreshConst(S.sort_of(s.ty[1]), 'sy')
+                    k2 = z3.FreshInt('sk2')
+                    f = And(S.seq_sorted_strict(x),
+                            S.forall_p([k_], Implies(And(0 <= k_, k_ < S.seq_n(x)), Select(s.t, Select(S.seq_arr(x), k_))),
+                                       [Select(S.seq_arr(x), k_)]),
+                            S.forall_p([y_], Implies(Select(s.t, y_),
+                                                     Exists([k2], And(0 <= k2, k2 < S.seq_n(x), Select(S.seq_arr(x), k2) == y_))),
+                                       [Select(s.t, y_)]))
                     return f if isinstance(node.ops[0], ast.Eq) else Not(f)
             # assumption side of a pure-function contract: `result == E` fixes the representation of
             # the function symbol's value (the symbol is ours, so this is a definition, not a restriction)
@@ -1072,8 +1083,12 @@ class Engine:
         q = z3.FreshConst(S.sort_of(qt), 'dq')
         saved = dict(path.env)
         path.env.update(bind(q))
-        kv = ev.ev(node.key, path, spec)
-        vv = ev.ev(node.value, path, spec)
+        path.guards.append(dom(q))          # obligations of the key / value expressions hold for the elements of the domain
+        try:
+            kv = ev.ev(node.key, path, spec)
+            vv = ev.ev(node.value, path, spec)
+        finally:
+            path.guards.pop()
         path.env.clear(); path.env.update(saved)
         y = z3.FreshConst(S.sort_of(kv.ty), 'dy')
         val = z3.FreshConst(z3.ArraySort(S.sort_of(kv.ty), S.sort_of(vv.ty)), 'dval')
@@ -1148,6 +1163,10 @@ class Engine:
             if len(node.args) > 1:
                 raise Unsupported('positional constructor args')
         for k in node.keywords:
+            if k.arg == 'parent_region':
+                # back pointer to the enclosing region block: not part of the value of a block here
+                self.assumptions_used.add(BACKPTR)
+                continue
             v = ev.ev(k.value, path, spec)
             ft = dict(S.BLOCK_FIELDS)[k.arg]
             if isinstance(v, tuple) and v[0] == 'emptyseq':
@@ -1173,7 +1192,71 @@ class Engine:
             return S.opt_none(ty[1])
         raise Unsupported('coerce %r to %r' % (v.ty, ty))
 
+    def allocate_sub(self, ev, node, path, spec):
+        """`SCFG(<dict>, name_gen=<ng>)` in heap mode: a new sub-graph identity whose block dictionary is the argument.
+        Assumed (allocation): the identity is not referenced by any stored block or block value in scope.  The
+        dataclass __post_init__ takes a region name of kind "meta" from the (shared) generator: its trusted contract."""
+        if spec or len(node.args) != 1 or [k.arg for k in node.keywords] != ['name_gen']:
+            raise Unsupported('SCFG(...) allocation shape')
+        d = ev.ev(node.args[0], path, spec)
+        if not (isinstance(d, V) and d.ty == ('dict', T_NAME, T_BLOCK)):
+            raise Unsupported('SCFG(...) of %r' % (d,))
+        heap = path.env['$heap']
+        s = S.fresh(S.T_SUB, 'newsub')
+        sq, kq = z3.FreshInt('as'), z3.FreshConst(S.sort_of(T_NAME), 'ak')
+        g = V(('dict', T_NAME, T_BLOCK), Select(heap.t, sq))
+        path.assume(S.forall_p([sq, kq], Implies(S.dict_has(g, kq), S.block_field(S.dict_get(g, kq), 'subregion').t != s.t),
+                               [Select(S.dict_val(g), kq)]))
+
+        def walk(v):
+            if isinstance(v, VObj):
+                for x in v.f.values():
+                    walk(x)
+            elif isinstance(v, V) and v.ty == ('dict', T_NAME, T_BLOCK):
+                k2 = z3.FreshConst(S.sort_of(T_NAME), 'ak')
+                path.assume(S.forall_p([k2], Implies(S.dict_has(v, k2), S.block_field(S.dict_get(v, k2), 'subregion').t != s.t),
+                                       [Select(S.dict_val(v), k2)]))
+            elif isinstance(v, V) and v.ty == T_BLOCK:
+                path.assume(S.block_field(v, 'subregion').t != s.t)
+            elif isinstance(v, V) and v.ty == S.T_SUB:
+                path.assume(v.t != s.t)
+        for k_, v_ in path.env.items():
+            if not k_.startswith('$') and not isinstance(v_, Namespace):
+                walk(v_)
+        # ... it was not a sub-graph before (identities that are not in use have empty dictionaries in the total heap of the
+        # model) and it is nested in nothing: its own root, the root of nothing else, depth 0
+        h0 = self.pre_env['$heap']
+        for hp in {heap.t.get_id(): heap, h0.t.get_id(): h0}.values():
+            ke = z3.FreshConst(S.sort_of(T_NAME), 'ak')
+            ge = V(('dict', T_NAME, T_BLOCK), Select(hp.t, s.t))
+            path.assume(S.forall_p([ke], Not(S.dict_has(ge, ke)), [S.dict_has(ge, ke)]))
+        root = ufun('chain_root', z3.IntSort(), z3.IntSort())
+        dep = ufun('sub_depth', z3.IntSort(), z3.IntSort())
+        so = z3.FreshInt('as')
+        path.assume(root(s.t) == s.t)
+        path.assume(dep(s.t) == 0)
+        path.assume(S.forall_p([so], Implies(so != s.t, root(so) != s.t), [root(so)]))
+        self.assumptions_used.add('allocation: the identity of a new SCFG object is not referenced by any stored block, nor by a value in '
+                                  'scope; it names no sub-graph before (empty dictionary) and is nested in nothing (its own chain_root)')
+        self.canary_points.append(('allocation ' + ast.unparse(node)[:40], list(path.hyps)))
+        path.env['$heap'] = V(S.T_HEAP, Store(heap.t, s.t, d.t))
+        # __post_init__: one region name of kind "meta" is taken from the generator passed in
+        ngn = node.keywords[0].value
+        ng = ev.ev(ngn, path, spec)
+        if not (isinstance(ng, VObj) and ng.cls == 'NameGenerator'):
+            raise Unsupported('SCFG(...) name_gen')
+        kinds = ng.f['kinds']
+        meta = S.name_lit('meta')
+        cur = If(S.dict_has(kinds, meta.t), S.dict_get(kinds, meta.t).t, IntVal(0))
+        newk = self.dict_store(kinds, meta.t, cur + 1, path)
+        self.assign_to(ev, ast.Attribute(value=ngn, attr='kinds', ctx=ast.Store()), newk, path)
+        self.assumptions_used.add('trusted contract: numba_scfg.core.datastructures.scfg:SCFG.__post_init__ (the meta region of a new '
+                                  'sub-graph: one "meta" name is taken from the shared generator; the region record itself is not modelled)')
+        return s
+
     def construct_obj(self, ev, clsname, node, path, spec):
+        if clsname == 'SCFG' and node.args and path.env.get('$heap') is not None:
+            return self.allocate_sub(ev, node, path, spec)
         if clsname not in OBJ_CLASSES or node.args:
             raise Unsupported('constructor ' + clsname)
         fields = {}
@@ -1342,6 +1425,8 @@ class Engine:
             kind = E(1)
             t = S.concat_f(S.concat_f(kind.t, S.name_lit('_block_').t), S.str_of_int(idx_of(nm.t)))
             return S.vbool(And(nm.t == t, idx_of(nm.t) >= 0))
+        if name == 'gen_region_name':          # alias for functions that have a local called region_name
+            name = 'region_name'
         if name in ('block_name', 'region_name', 'var_name'):
             kind, idx = E(0), E(1)
             cat = lambda a, b: S.concat_f(a, b)
@@ -1427,7 +1512,9 @@ class Engine:
             cs = SRC.block_classes()
             isreg = S.block_field(b, 'cls').t == cs['RegionBlock']['id']
             bs = S.block_field(b, 'subregion').t
-            return S.vbool(S.forall_p([sq, kq], Implies(And(S.dict_has(g, kq), isreg), And(dep(bs) > dep(sq), root(bs) == root(sq))),
+            # nesting_wf(x): only the sub-graphs of the tree x belongs to
+            intree = BoolVal(True) if not node.args else root(sq) == root(E(0).t)
+            return S.vbool(S.forall_p([sq, kq], Implies(And(S.dict_has(g, kq), isreg, intree), And(dep(bs) > dep(sq), root(bs) == root(sq))),
                                       [Select(S.dict_val(g), kq)]))
         if name == 'fwd_rank':
             # fwd_rank(seq, be, p): number of entries of seq[:p] that are not in be (uninterpreted, with its recurrence)
@@ -2038,7 +2125,8 @@ class Engine:
             qual = '%s:%s.%s' % (SRC.BB_MOD, o, attr)
             path.guards.append(guard)
             try:
-                r = self.call_contract(ev, qual, node, path, spec, self_val=base, self_node=None)
+                sn = node.func.value if (node is not None and isinstance(node.func, ast.Attribute)) else None
+                r = self.call_contract(ev, qual, node, path, spec, self_val=base, self_node=sn)
             finally:
                 path.guards.pop()
             results.append((guard, r))
@@ -2407,6 +2495,22 @@ class Engine:
                 and isinstance(st.value.func.value, ast.Name) and st.value.func.value.id == '_logger':
             self.assumptions_used.add('_logger.debug(...) is effect-free (dropped)')
             return [(path, None)]
+        if isinstance(st.value, ast.Call) and ast.unparse(st.value.func) == 'object.__setattr__' and len(st.value.args) == 3 \
+                and isinstance(st.value.args[1], ast.Constant):
+            tgt_, fld, valn = st.value.args[0], st.value.args[1].value, st.value.args[2]
+            ev_ = self.evaluator()
+            obj = ev_.ev(tgt_, path, False)
+            if fld in ('parent_region', 'region'):
+                ev_.ev(valn, path, False)
+                self.assumptions_used.add(BACKPTR)
+                return [(path, None)]
+            if isinstance(obj, V) and obj.ty == T_BLOCK and fld in dict(S.BLOCK_FIELDS) and isinstance(tgt_, ast.Name):
+                # in-place write of a field of a (frozen dataclass) block the name is bound to; other references to the
+                # same object are outside the model (the callers' contracts say which object they pass)
+                v = self.coerce(ev_.ev(valn, path, False), dict(S.BLOCK_FIELDS)[fld], ev_)
+                path.env[tgt_.id] = S.block_replace(obj, **{fld: v})
+                return [(path, None)]
+            raise Unsupported('object.__setattr__ on ' + ast.unparse(tgt_))
         if isinstance(st.value, ast.Yield):
             v = self.evaluator().ev(st.value.value, path, False)
             cur = path.env['_yielded']
@@ -3138,6 +3242,7 @@ class Engine:
         self.seen_loop_keys = set()
         self.bound_cuts = set()
         self.unproved_termination = []
+        self.canary_points = []
         self.pruned = []
         # parameter check against the real signature
         real = [a.arg for a in self.fn.args.args]
